@@ -906,3 +906,4 @@ EXPLANATION += (' Round 6: ' + 'GEN/sampled-size: the size given to np.random.ch
 EXPLANATION += (' Round 7: ' + 'GEN/steps-by-decoding (every labels_to_num_steps decodes its labels or delegates); NOTEPERF/pitch-block-size.')
 EXPLANATION += (' Rounds 9-10: ' + 'PITFALL/unforwarded-parameter over the encoder classes (constructors and base constructors resolved through the hierarchy).')
 EXPLANATION += (' Round 11: ' + 'DEFAULT/event-of-the-encoding; PITFALL/falsy-domain-zero over the encoders; SIZE/slice-store-width.')
+EXPLANATION += (' Round 12: ' + 'PITFALL/unzip-empty; SIZE answers cannot-classify when the offset is moved by a helper.')
